@@ -255,6 +255,7 @@ func c09(c *ev.Ctx) {
 	}
 	c09WorkAfterCancel(c)
 	c09StraightLine(c)
+	c09ObjectsWithContext(c)
 	// finite scripts under a live context are unaffected
 	// (every kind of live context: no deadline at all, deadlines from a minute to the end of
 	// what a time.Time or a Duration can hold, a child of a live parent, a context carrying values)
@@ -547,5 +548,95 @@ func c09StraightLine(c *ev.Ctx) {
 				}
 			}
 		}
+	}
+}
+
+// c09Request is a host record that carries a context of its own, as an *http.Request does.
+type c09Request struct {
+	Path string
+	Hits int
+	ctx  context.Context
+}
+
+// Context returns the record's own context - the host's business, not the evaluator's.
+func (r *c09Request) Context() context.Context { return r.ctx }
+
+// c09ObjectsWithContext: the context that stops a script is the one given to the evaluator
+// before Prepare - whatever the object of a run is, also a record that carries a context
+// of its own (live for ever, or long over): a spinning script stops when the evaluator's
+// context is cancelled, and a finite script under a live evaluator context runs, in this
+// run and in the runs that follow.
+func c09ObjectsWithContext(c *ev.Ctx) {
+	over, cancelOver := context.WithCancel(context.Background())
+	cancelOver()
+	spins := []string{`while (Hits >= 0) { x = 1; }`, `function spin() { while (true) { y = Path; } } spin(); return 1;`, `foreach i in 1..100000 { foreach j in 1..100000 { z = Hits; } } return 1;`}
+	for si, script := range spins {
+		for oi, mk := range []func() interface{}{
+			func() interface{} { return &c09Request{Path: "/", Hits: 1, ctx: context.Background()} },
+			func() interface{} { return &c09Request{Path: "/", Hits: 1, ctx: over} },
+			func() interface{} { return c09Request{Path: "/", Hits: 1, ctx: context.Background()} },
+		} {
+			for _, run := range []bool{false, true} {
+				id := fmt.Sprintf("object-context/spin/%d/%d/%v", si, oi, run)
+				if !c.Want(id) {
+					continue
+				}
+				ctx, cancel := context.WithCancel(context.Background())
+				evr, err := eng.New(script, eng.Options{Ctx: ctx, NoOptimize: (si+oi)%2 == 0, Budget: 1000 + c09Bound + 10})
+				if err != nil {
+					cancel()
+					continue
+				}
+				cancelled := false
+				var stepsAfter int64
+				evr.OnStep = func(m *vm.VM, ip int, op code.Opcode) error {
+					if cancelled {
+						stepsAfter++
+					} else if evr.Steps() > 1000 {
+						cancelled = true
+						cancel()
+					}
+					return nil
+				}
+				var callErr error
+				var budget bool
+				if run {
+					_, callErr, _, _ = evr.RunBool(mk())
+					budget = callErr != nil && strings.Contains(callErr.Error(), eng.ErrBudget.Error())
+				} else {
+					o := evr.Exec(mk())
+					callErr, budget = o.Err, o.Budget
+				}
+				cancel()
+				c.Case(id, true)
+				if oi == 1 && !cancelled && callErr != nil {
+					c.Violation(id, "a record's own context stopped the script", map[string]interface{}{"summary": fmt.Sprintf("%s over a record whose own context is over, evaluator context live: %s returned %v after %d instructions (the script should spin until the evaluator's context ends)", script, apiName(run), callErr, evr.Steps()), "script": script})
+					continue
+				}
+				if !cancelled || budget || callErr == nil || stepsAfter > c09Bound {
+					c.Violation(id, "not stopped by the evaluator's context", map[string]interface{}{"summary": fmt.Sprintf("%s over a record with a Context() method (%s): evaluator context cancelled=%v at instruction 1000, %d further instructions, err=%v", script, apiName(run), cancelled, stepsAfter, callErr), "script": script})
+				}
+			}
+		}
+	}
+	// finite scripts: a record whose own context is over, then plain records, under a live evaluator context
+	for fi, f := range c09Finite {
+		id := fmt.Sprintf("object-context/finite/%d", fi)
+		if !c.Want(id) {
+			continue
+		}
+		ctx, cancel := context.WithTimeout(context.Background(), time.Hour)
+		evr, err := eng.New(f.script, eng.Options{Ctx: ctx, NoOptimize: fi%2 == 0})
+		if err == nil {
+			for step, obj := range []interface{}{&c09Request{Path: "/a", ctx: over}, map[string]interface{}{"Path": "/b"}, &c09Request{Path: "/c", ctx: context.Background()}, nil, &c09Request{Path: "/d", ctx: over}} {
+				got := evr.Exec(obj).Desc()
+				c.Case(fmt.Sprint(id, step), true)
+				if got != f.want {
+					c.Violation(id, "finite script affected by a record's own context", map[string]interface{}{"summary": fmt.Sprintf("%s, run %d over %T under a live evaluator context gives %s, expected %s", f.script, step+1, obj, got, f.want), "script": f.script})
+					break
+				}
+			}
+		}
+		cancel()
 	}
 }
